@@ -26,6 +26,8 @@ type SchedPlan struct {
 	PCTDepth  int     `json:"pct_depth,omitempty"`
 	PCTLength int     `json:"pct_length,omitempty"`
 	SiteMask  uint64  `json:"site_mask"`
+	HotMod    int     `json:"hot_mod,omitempty"` // sites with id % HotMod == HotRem always pre-empt
+	HotRem    int     `json:"hot_rem,omitempty"`
 }
 
 // NetPlan are the network knobs and planned faults.
@@ -100,6 +102,8 @@ func (e *Env) simConfig(seed uint64) simrt.Config {
 		PCTDepth:  e.Sched.PCTDepth,
 		PCTLength: e.Sched.PCTLength,
 		SiteMask:  e.Sched.SiteMask,
+		HotMod:    e.Sched.HotMod,
+		HotRem:    e.Sched.HotRem,
 	}
 }
 
@@ -138,6 +142,10 @@ func genEnv(g *simrt.Rng, tier string) Env {
 		e.Sched.SiteMask = g.Uint64() | g.Uint64()
 	default:
 		e.Sched.SiteMask = g.Uint64()
+	}
+	if g.Bool(0.3) {
+		e.Sched.HotMod = simrt.Pick(g, 50, 200, 800)
+		e.Sched.HotRem = g.IntN(e.Sched.HotMod)
 	}
 	// network
 	if g.Bool(0.6) {
